@@ -198,7 +198,25 @@ func runC20Sema(c *Ctx) {
 			c.bad(construct, e.Site.Pos(), "the number of concurrently running tool processes is not runtime.NumCPU()")
 		}
 	}
-	// the semaphore is created with that bound and weight 1 is acquired
+	// the semaphore is created with exactly that bound: the capacity handed to semaphore.NewWeighted is the parameter
+	// itself (converted), not an expression of it
+	nw := findCalls(nc, "golang.org/x/sync/semaphore.NewWeighted")
+	switch {
+	case len(nw) == 0:
+		c.bad("newConcurrentProcess|semaphore capacity", nc.Pos(), "no semaphore is created from the bound")
+	case len(nc.Params) == 0:
+		c.bad("newConcurrentProcess|semaphore capacity", nc.Pos(), "the bound is not a parameter")
+	default:
+		for _, call := range nw {
+			l := linOf(call.Common().Args[0], 0)
+			if l.equal(linForm{symName(nc.Params[0]): 1}) {
+				c.ok("newConcurrentProcess|semaphore capacity", call.Pos(), "the capacity of the semaphore is the bound given by the caller")
+			} else {
+				c.bad("newConcurrentProcess|semaphore capacity", call.Pos(), "the capacity of the semaphore is "+l.String()+", not the bound given by the caller: more (or fewer) tool processes than CPUs can run at once")
+			}
+		}
+	}
+	// weight 1 is acquired
 	if k, ok := constInt(acq[0].Common().Args[2]); len(acq) == 1 && (!ok || k != 1) {
 		c.bad("(*concurrentProcess).run$1|weight", acq[0].Pos(), "a weight other than 1 is acquired per process")
 	}
@@ -805,6 +823,7 @@ func runC20Once(c *Ctx) {
 		default:
 			c.ok(construct, vs.Pos(), fmt.Sprintf("%d call site(s) of (*externalCommand).run reachable, outside any loop, no two of them or of the calls leading to them on one path", total))
 		}
+		c20EveryRunStep(c, rule, vs)
 	}
 }
 
@@ -834,7 +853,7 @@ func nonNilErrReturned(fn *ssa.Function, errParam *ssa.Parameter) bool {
 		for blk := range reachableBlocks([]*ssa.BasicBlock{nn}, nil) {
 			if ret, ok := blk.Instrs[len(blk.Instrs)-1].(*ssa.Return); ok && (nn == blk || nn.Dominates(blk)) {
 				n++
-				if isNilConst(ret.Results[len(ret.Results)-1]) {
+				if isNilConst(returnedValue(ret, len(ret.Results)-1)) {
 					all = false
 				}
 			}
